@@ -1,13 +1,13 @@
 (* The operations for which preservation of the coherence invariant is proved, and the history /
    restart theorems over them. *)
-From Coq Require Import List String Arith NArith Bool Lia.
+From Coq Require Import List String Arith NArith Bool Lia Sorted Ascii.
 From FB Require Import Model.Overlay Proofs.OverlayInv Proofs.OverlayScan Proofs.OverlayRestart
   Proofs.OverlayReadOnly Proofs.OverlayCoh Proofs.OverlayCohView Proofs.OverlayCohOps.
 Import ListNotations.
 
 Definition coh_op (o : op) : bool :=
   match o with
-  | OMkdir _ _ | OCreate _ _ | OMknod _ _ | OSymlink _ _ | OUnlink _ | ORmdir _
+  | OMkdir _ _ | OCreate _ _ | OMknod _ _ | OSymlink _ _ | OLink _ _ | OUnlink _ | ORmdir _ | ORename _ _
   | OOpen _ _ | OWrite _ _ _ | OChmod _ _ | OTruncate _ _ => true
   | OSetxattr _ k _ | ORemovexattr _ k => negb (is_opq_name k)     (* not one of the overlay's own opaque markers *)
   | _ => readonly_op o
@@ -19,8 +19,10 @@ Proof.
   - apply cpres_mkdir. exact HC.
   - apply cpres_mknod. exact HC.
   - apply cpres_symlink. exact HC.
+  - apply cpres_link. exact HC.
   - apply cpres_unlink. exact HC.
   - apply cpres_rmdir. exact HC.
+  - cbn [step]. apply cpres_with_parent; [|exact HC]. intros pp nm. apply cpres_with_parent. intros pp2 nm2. apply cpres_fail.
   - apply cpres_open. exact HC.
   - apply cpres_write. exact HC.
   - apply cpres_chmod. exact HC.
@@ -43,3 +45,163 @@ Proof.
   intros Hok Hh. cbv zeta. apply coherent_restart. apply coherent_history; [exact Hh|].
   apply load_all_coherent. apply fresh_coherent. exact Hok.
 Qed.
+
+(* The client's view of a coherent state is the overlayfs union of its disk state (the merge of the
+   current upper directory and the lower layers), up to the order of directory entries. *)
+Lemma coherent_layers_ok s : Coherent s -> Forall layer_ok (all_layers (upper s) (lowers s)).
+Proof.
+  intros ([u Hu] & Hw & _). rewrite Hu. cbn [all_layers]. constructor.
+  - apply (Hw 0%nat u). exact Hu.
+  - apply Forall_forall. intros t Ht. destruct (In_nth_error _ _ Ht) as [j Hj]. apply (Hw (S j) t). exact Hj.
+Qed.
+Theorem coherent_view_union s : Coherent s ->
+  oteq (merge (all_layers (upper s) (lowers s))) (view (load_all s)).
+Proof.
+  intros HC. rewrite <- (restart_shows_union s (coherent_layers_ok s HC)). apply coherent_restart. exact HC.
+Qed.
+Theorem view_union_history u ls nx ops : Forall layer_ok (u :: ls) -> coh_history ops = true ->
+  let s := run_dumps ops (load_all (fresh (Some u) ls nx)) in
+  oteq (merge (all_layers (upper s) (lowers s))) (view (load_all s)).
+Proof.
+  intros Hok Hh. cbv zeta. apply coherent_view_union. apply coherent_history; [exact Hh|].
+  apply load_all_coherent. apply fresh_coherent. exact Hok.
+Qed.
+
+(* ------------------------------------------------------------------ teq trees have the same serialisation
+   (ser sorts the entries of a directory by name; names are distinct) *)
+Lemma N_of_ascii_inj x y : Ascii.N_of_ascii x = Ascii.N_of_ascii y -> x = y.
+Proof. intros H. rewrite <- (Ascii.ascii_N_embedding x), <- (Ascii.ascii_N_embedding y), H. reflexivity. Qed.
+Lemma sleb_refl a : sleb a a = true.
+Proof. induction a as [|x a IH]; cbn [sleb]; [reflexivity|]. rewrite N.ltb_irrefl. exact IH. Qed.
+Lemma sleb_total a : forall b, sleb a b = true \/ sleb b a = true.
+Proof.
+  induction a as [|x a IH]; intros b; [left; reflexivity|]. destruct b as [|y b]; [right; reflexivity|]. cbn [sleb].
+  destruct (N.ltb_spec (Ascii.N_of_ascii x) (Ascii.N_of_ascii y)) as [H|H]; [left; reflexivity|].
+  destruct (N.ltb_spec (Ascii.N_of_ascii y) (Ascii.N_of_ascii x)) as [H'|H']; [right; reflexivity|]. apply IH.
+Qed.
+Lemma sleb_antisym a : forall b, sleb a b = true -> sleb b a = true -> a = b.
+Proof.
+  induction a as [|x a IH]; intros b H1 H2; destruct b as [|y b]; try reflexivity; try discriminate. cbn [sleb] in *.
+  destruct (N.ltb_spec (Ascii.N_of_ascii x) (Ascii.N_of_ascii y)) as [H|H];
+    destruct (N.ltb_spec (Ascii.N_of_ascii y) (Ascii.N_of_ascii x)) as [H'|H']; try discriminate; try lia.
+  assert (x = y) by (apply N_of_ascii_inj; lia). subst y. f_equal. apply IH; assumption.
+Qed.
+Lemma sleb_trans a : forall b c, sleb a b = true -> sleb b c = true -> sleb a c = true.
+Proof.
+  induction a as [|x a IH]; intros b c H1 H2; [reflexivity|]. destruct b as [|y b]; [discriminate|]. destruct c as [|z c]; [discriminate|].
+  cbn [sleb] in *.
+  destruct (N.ltb_spec (Ascii.N_of_ascii x) (Ascii.N_of_ascii y)) as [Hxy|Hxy];
+    destruct (N.ltb_spec (Ascii.N_of_ascii y) (Ascii.N_of_ascii x)) as [Hyx|Hyx];
+    destruct (N.ltb_spec (Ascii.N_of_ascii y) (Ascii.N_of_ascii z)) as [Hyz|Hyz];
+    destruct (N.ltb_spec (Ascii.N_of_ascii z) (Ascii.N_of_ascii y)) as [Hzy|Hzy];
+    destruct (N.ltb_spec (Ascii.N_of_ascii x) (Ascii.N_of_ascii z)) as [Hxz|Hxz];
+    destruct (N.ltb_spec (Ascii.N_of_ascii z) (Ascii.N_of_ascii x)) as [Hzx|Hzx];
+    try reflexivity; try discriminate; try (exfalso; lia).
+  apply (IH b c); assumption.
+Qed.
+
+Definition sle (a b : string) : Prop := sleb a b = true.
+Lemma sinsert_keys {A} (kv : string * A) l k : In k (map fst (sinsert kv l)) <-> k = fst kv \/ In k (map fst l).
+Proof.
+  induction l as [|h r IH]; cbn [sinsert map fst In]; [intuition|].
+  destruct (sleb (fst kv) (fst h)); cbn [map fst In]; [intuition|]. rewrite IH. intuition.
+Qed.
+Lemma sinsert_sorted {A} (kv : string * A) l : StronglySorted sle (map fst l) -> StronglySorted sle (map fst (sinsert kv l)).
+Proof.
+  induction l as [|h r IH]; intros S; cbn [sinsert map fst]; [constructor; constructor|].
+  inversion S as [|? ? S' Hall]; subst. destruct (sleb (fst kv) (fst h)) eqn:E; cbn [map fst].
+  - constructor; [exact S|]. constructor; [exact E|]. eapply Forall_impl; [|exact Hall]. intros a Ha. exact (sleb_trans _ _ _ E Ha).
+  - constructor; [apply IH; exact S'|]. apply Forall_forall. intros k Hk. apply sinsert_keys in Hk. destruct Hk as [->|Hk].
+    + destruct (sleb_total (fst h) (fst kv)) as [H|H]; [exact H|congruence].
+    + rewrite Forall_forall in Hall. apply Hall. exact Hk.
+Qed.
+Lemma sinsert_nodup {A} (kv : string * A) l : ~ In (fst kv) (map fst l) -> NoDup (map fst l) -> NoDup (map fst (sinsert kv l)).
+Proof.
+  induction l as [|h r IH]; intros Hn Hd; cbn [sinsert map fst]; [constructor; [intros []|constructor]|].
+  destruct (sleb (fst kv) (fst h)); cbn [map fst]; [constructor; assumption|].
+  inversion Hd as [|? ? Hh Hd']; subst. constructor.
+  - intros Hin. apply sinsert_keys in Hin. destruct Hin as [E|Hin]; [apply Hn; left; exact E|contradiction].
+  - apply IH; [intros H; apply Hn; right; exact H|exact Hd'].
+Qed.
+Lemma sinsert_afind {A} (kv : string * A) l k : ~ In (fst kv) (map fst l) ->
+  afind k (sinsert kv l) = if String.eqb k (fst kv) then Some (snd kv) else afind k l.
+Proof.
+  induction l as [|h r IH]; intros Hn; cbn [sinsert].
+  - destruct kv as [a v]. cbn [afind fst snd]. reflexivity.
+  - destruct (sleb (fst kv) (fst h)).
+    + destruct kv as [a v]. cbn [afind fst snd]. reflexivity.
+    + destruct h as [hk hv]. cbn [afind fst snd] in *. rewrite IH by (intros H; apply Hn; right; exact H).
+      destruct (String.eqb k hk) eqn:E1; [|reflexivity]. destruct (String.eqb k (fst kv)) eqn:E2; [|reflexivity].
+      apply String.eqb_eq in E1, E2. subst. exfalso. apply Hn. left. reflexivity.
+Qed.
+Lemma ssort_spec {A} (l : list (string * A)) : NoDup (map fst l) ->
+  StronglySorted sle (map fst (ssort l)) /\ NoDup (map fst (ssort l)) /\
+  (forall k, In k (map fst (ssort l)) <-> In k (map fst l)) /\ (forall k, afind k (ssort l) = afind k l).
+Proof.
+  induction l as [|[a v] r IH]; intros Hd; cbn [ssort fold_right map fst].
+  - repeat split; auto; constructor.
+  - inversion Hd as [|? ? Hn Hd']; subst. destruct (IH Hd') as (S & N & K & F). fold (ssort r).
+    assert (Hn' : ~ In (fst (a, v)) (map fst (ssort r))) by (cbn [fst]; rewrite K; exact Hn).
+    split; [apply sinsert_sorted; exact S|]. split; [apply sinsert_nodup; assumption|]. split.
+    + intros k. rewrite sinsert_keys, K. cbn [fst In]. intuition.
+    + intros k. rewrite (sinsert_afind (a, v) (ssort r) k Hn'), F. cbn [afind fst snd]. reflexivity.
+Qed.
+Lemma sorted_unique (l1 : list string) : forall l2, StronglySorted sle l1 -> StronglySorted sle l2 -> NoDup l1 -> NoDup l2 ->
+  (forall k, In k l1 <-> In k l2) -> l1 = l2.
+Proof.
+  induction l1 as [|a l1 IH]; intros l2 S1 S2 N1 N2 K.
+  - destruct l2 as [|b l2]; [reflexivity|]. exfalso. apply (proj2 (K b)). left. reflexivity.
+  - destruct l2 as [|b l2]; [exfalso; apply (proj1 (K a)); left; reflexivity|].
+    inversion S1 as [|? ? S1' A1]; subst. inversion S2 as [|? ? S2' A2]; subst.
+    inversion N1 as [|? ? Na N1']; subst. inversion N2 as [|? ? Nb N2']; subst.
+    rewrite Forall_forall in A1, A2.
+    assert (a = b).
+    { destruct (proj1 (K a) (or_introl eq_refl)) as [E|Hin]; [symmetry; exact E|].
+      destruct (proj2 (K b) (or_introl eq_refl)) as [E|Hin']; [exact E|].
+      apply sleb_antisym; [apply A1; exact Hin'|apply A2; exact Hin]. }
+    subst b. f_equal. apply IH; auto. intros k. split; intros Hk.
+    + destruct (proj1 (K k) (or_intror Hk)) as [E|H]; [subst; contradiction|exact H].
+    + destruct (proj2 (K k) (or_intror Hk)) as [E|H]; [subst; contradiction|exact H].
+Qed.
+Lemma assoc_forall2 {A} (R : A -> A -> Prop) (l1 : list (string * A)) : forall l2, map fst l1 = map fst l2 -> NoDup (map fst l1) ->
+  (forall k a, afind k l1 = Some a -> exists b, afind k l2 = Some b /\ R a b) ->
+  Forall2 (fun x y => fst x = fst y /\ R (snd x) (snd y)) l1 l2.
+Proof.
+  induction l1 as [|[k a] l1 IH]; intros l2 Hk Hd H; destruct l2 as [|[k2 b] l2]; try discriminate; [constructor|].
+  cbn [map fst] in Hk. inversion Hk as [[E Hk']]. subst k2. inversion Hd as [|? ? Hn Hd']; subst. constructor.
+  - cbn [fst snd]. split; [reflexivity|]. destruct (H k a) as (b' & Hb & Rab); [cbn [afind]; rewrite String.eqb_refl; reflexivity|].
+    cbn [afind] in Hb. rewrite String.eqb_refl in Hb. inversion Hb; subst. exact Rab.
+  - apply IH; [exact Hk'|exact Hd'|]. intros k' a' Ha'.
+    assert (Hne : String.eqb k' k = false).
+    { apply String.eqb_neq. intros ->. apply Hn. apply afind_In in Ha'. apply (in_map fst) in Ha'. exact Ha'. }
+    destruct (H k' a') as (b' & Hb & Rab); [cbn [afind]; rewrite Hne; exact Ha'|]. cbn [afind] in Hb. rewrite Hne in Hb. eauto.
+Qed.
+Theorem teq_ser f : forall a b, teq a b -> ser f a = ser f b.
+Proof.
+  induction f as [|f IH]; intros a b H; [reflexivity|]. destruct H as [m x c1 c2 N1 N2 H1 H2|t Ht]; [|reflexivity].
+  cbn [ser].
+  assert (E : map (fun kv : string * tree => (fst kv ++ "=" ++ ser f (snd kv) ++ ",")%string) (ssort c1) =
+              map (fun kv : string * tree => (fst kv ++ "=" ++ ser f (snd kv) ++ ",")%string) (ssort c2)); [|rewrite E; reflexivity].
+  destruct (ssort_spec c1 N1) as (S1 & D1 & K1 & F1). destruct (ssort_spec c2 N2) as (S2 & D2 & K2 & F2).
+  assert (Hkeys : map fst (ssort c1) = map fst (ssort c2)).
+  { apply sorted_unique; auto. intros k. rewrite K1, K2. split; intros Hk.
+    - destruct (afind k c2) eqn:E; [apply afind_In in E; apply (in_map fst) in E; exact E|]. exfalso.
+      destruct (afind k c1) as [a1|] eqn:E1; [destruct (H1 k a1 E1) as (b1 & Hb & _); congruence|].
+      apply afind_none_notin in E1. contradiction.
+    - destruct (afind k c1) eqn:E; [apply afind_In in E; apply (in_map fst) in E; exact E|]. exfalso.
+      apply H2 in E. apply afind_none_notin in E. contradiction. }
+  assert (F : Forall2 (fun x y => fst x = fst y /\ teq (snd x) (snd y)) (ssort c1) (ssort c2)).
+  { apply assoc_forall2; [exact Hkeys|exact D1|]. intros k a1 Ha. rewrite F1 in Ha. destruct (H1 k a1 Ha) as (b1 & Hb & T). exists b1. rewrite F2. auto. }
+  clear -F IH. induction F as [|x y l1 l2 [E T] _ IHF]; [reflexivity|]. cbn [map]. rewrite IHF, E, (IH _ _ T). reflexivity.
+Qed.
+Lemma oteq_ser a b : oteq a b -> ser_opt a = ser_opt b.
+Proof. destruct a as [a|], b as [b|]; unfold oteq, ser_opt; intros H; try contradiction; [apply teq_ser; exact H|reflexivity]. Qed.
+
+(* restart equivalence in the form of C11_full (equal serialisations), for all histories over [coh_op] *)
+Theorem restart_same_view_history u ls nx ops : Forall layer_ok (u :: ls) -> coh_history ops = true ->
+  restart_same_view (Some u) ls nx ops.
+Proof. intros Hok Hh. unfold restart_same_view. apply oteq_ser. apply (restart_coherent_history u ls nx ops Hok Hh). Qed.
+Theorem view_union_history_ser u ls nx ops : Forall layer_ok (u :: ls) -> coh_history ops = true ->
+  let s := run_dumps ops (load_all (fresh (Some u) ls nx)) in
+  ser_opt (view (load_all s)) = ser_opt (merge (all_layers (upper s) (lowers s))).
+Proof. intros Hok Hh. cbv zeta. symmetry. apply oteq_ser. apply (view_union_history u ls nx ops Hok Hh). Qed.
